@@ -1,13 +1,267 @@
-"""C08 -- placeholder until the check is built"""
+"""C08 -- master curves do not depend on arbitrary processing choices; component handling"""
+
+import copy
+import math
+
+from .. import core, curves_corpus, gen_planted, oracle_curves
+
 PROPERTY = 'C08'
 LEVEL = 'exploration'
-SHARDS = {'quick': 1, 'thorough': 1}
-RULE = 'not built yet'
+SHARDS = {'quick': 4, 'thorough': 16}
+RULE = (
+    'Function level: collections of (t, H) series with 1-4 level-disjoint groups of distinct sizes (monotone and '
+    'non-monotone, time origins 0 / 1e6 / 1.6e9) handed to the real get_series_time_offsets, which is then re-invoked on '
+    '3 permutations of the list and on copies whose series are each shifted along their own axis (integers and '
+    'non-dyadic reals); raw head mappings handed to the real find_offsets and re-invoked with relabelled series ids '
+    '(another series becomes the internal zero).  Oracle: own union-find over "share a grid level" names the main '
+    'body (most distinct levels; ties in size accept either); the returned set must equal it and relative offsets and '
+    'the master curve must agree within 1e-8 relative.  Dataset level: planted two-band records and noisy records '
+    'through the CLI workflow, walker compares the intervals stored by rise / recession with the main body.  '
+    'Non-trivial: >= 4 intervals, permutation != identity, and for the component clause >= 2 components with >= 2 '
+    'intervals in the largest; distinct by collection digest.'
+)
+ASSUMPTIONS = [
+    'main body = connected group with the most distinct grid levels; when two groups tie, either is accepted',
+]
+SIZES = {'quick': dict(gi=220, hm=300, ds=40, cli=6), 'thorough': dict(gi=8000, hm=12000, ds=1600, cli=100)}
+REQUIRED = {
+    tier: {
+        'collections-compared-under-permutation': 100,
+        'collections-compared-under-axis-shift': 100,
+        'collections-with-2+-components': 40,
+        'main-body-identified': 100,
+        'head-mappings-compared-under-relabelling': 100,
+        'recession:main-body-checked': 10,
+        'rise:main-body-checked': 10,
+        'recession:curves-with-2+-components': 5,
+    }
+    for tier in ('quick', 'thorough')
+}
+MIN_NONTRIVIAL = {'quick': 60, 'thorough': 1500}
+
+
+def gen_collection(rng):
+    import numpy as np
+
+    step = rng.choice([1.0, 0.5, 0.1, 0.3, 2.5])
+    ncomp = rng.choice([1, 1, 2, 3, 4])
+    series = []
+    base = rng.uniform(-20, 20)
+    for cidx in range(ncomp):
+        n = rng.randint(2, 8) if cidx == 0 else rng.randint(1, 4)
+        top = base
+        for _ in range(n):
+            L = rng.randint(3, 25)
+            start = top - rng.uniform(0, 6) * step * 3
+            if rng.random() < 0.7:
+                dz = [-rng.uniform(0.05, 1.5) * step for _ in range(L)]
+            else:
+                dz = [rng.uniform(-1.5, 0.8) * step for _ in range(L)]
+            H = np.array([start] + list(start + np.cumsum(dz)))
+            dt = rng.choice([1800.0, 3600.0, 1200.0])
+            t0 = rng.choice([0.0, 1.6e9, rng.uniform(0, 1e6)])
+            series.append((t0 + np.arange(L + 1) * dt, H))
+        base -= 200 * step
+    rng.shuffle(series)
+    return step, series
+
+
+def own_components(series, step):
+    level_sets = [set(oracle_curves.own_crossings(list(map(float, t - t.min())), list(map(float, H)), step)) for t, H in series]
+    amb = any(a for t, H in series for (_, a) in oracle_curves.own_crossings(list(map(float, t)), list(map(float, H)), step).values())
+    return oracle_curves.components(level_sets), amb
+
+
+def rel(ind, off):
+    o = dict(zip(ind, (float(v) for v in off)))
+    k = min(o)
+    return {i: o[i] - o[k] for i in o}
+
+
+def master(ind, off, mp):
+    o = dict(zip(ind, (float(v) for v in off)))
+    out = {}
+    for k, seq in mp.items():
+        vals = [o[s] + float(t) for s, t in seq if s in o]
+        if len(vals) >= 2:
+            out[k] = sum(vals) / len(vals)
+    if not out:
+        return {}
+    k0 = max(out)
+    return {k: v - out[k0] for k, v in out.items()}
+
+
+def close(a, b, scale):
+    if set(a) != set(b):
+        return False, 'key sets differ'
+    d = max([abs(a[k] - b[k]) for k in a] + [0.0])
+    return d <= 1e-8 * scale, d
+
+
+def check_collection(ctx, rng, step, series, case=None):
+    import numpy as np
+    import spowtd.fit_offsets as fo
+
+    rec = ctx.rec
+    rec.case()
+    case = case or {'kind': 'collection', 'step': step, 'series': [[list(map(float, t)), list(map(float, H))] for t, H in series]}
+    comps, amb = own_components(series, step)
+    if not comps:
+        rec.hit('no-level-crossed')
+        return
+    if amb:
+        rec.hit('collections-skipped-tie-ambiguity')
+        return
+    tie = len(comps) > 1 and comps[0][0] == comps[1][0]
+    if len(comps) > 1:
+        rec.hit('collections-with-2+-components')
+    candidates = [set(m) for nl, m in comps if nl == comps[0][0]]
+    call = lambda ss: fo.get_series_time_offsets([(t.copy(), H.copy()) for t, H in ss], step)
+    try:
+        ind, off, mp = call(series)
+    except Exception as exc:  # pylint: disable=broad-except
+        desc = core.describe_exception(exc)
+        if desc['origin'] == 'harness':
+            rec.inconclusive_because('harness exception: {}'.format(desc))
+            return
+        if 'max() iterable argument is empty' in desc['message'] and any(len(c) == 1 for c in candidates):
+            rec.violation('main-body-single-interval', {'exception': desc, 'components_levels_sizes': [(nl, len(m)) for nl, m in comps[:5]]}, case, 'collection')
+            return
+        rec.violation('get_series_time_offsets-raises:' + desc['type'], {'exception': desc, 'components_levels_sizes': [(nl, len(m)) for nl, m in comps[:5]]}, case, 'collection')
+        return
+    if set(ind) not in candidates:
+        rec.violation('returned-intervals-are-not-the-main-body',
+                      {'returned': sorted(ind), 'components_levels_members': [(nl, m) for nl, m in comps[:4]]}, case, 'collection')
+        return
+    rec.hit('main-body-identified')
+    if tie:
+        rec.hit('collections-with-tied-component-sizes')
+        return
+    base = rel(ind, off)
+    mbase = master(ind, off, mp)
+    scale = max([1.0] + [abs(v) for v in base.values()] + [abs(v) for v in mbase.values()])
+    n = len(series)
+    # permutations
+    for _ in range(3):
+        perm = list(range(n))
+        rng.shuffle(perm)
+        try:
+            ind2, off2, mp2 = call([series[p] for p in perm])
+        except Exception as exc:  # pylint: disable=broad-except
+            rec.violation('permuted-collection-raises', {'exception': core.describe_exception(exc), 'permutation': perm}, case, 'collection')
+            return
+        back = [perm[i] for i in ind2]
+        mp2b = {k: [(perm[s], t) for s, t in seq] for k, seq in mp2.items()}
+        ok, d = close(rel(back, off2), base, scale)
+        ok2, d2 = close(master(back, off2, mp2b), mbase, scale)
+        if not (ok and ok2):
+            rec.violation('result-depends-on-the-order-of-intervals', {'permutation': perm, 'offset_difference': d, 'curve_difference': d2, 'scale': scale}, case, 'collection')
+            return
+    rec.hit('collections-compared-under-permutation')
+    # shifts of each interval's own axis
+    for mode in ('integers', 'reals'):
+        sh = []
+        for t, H in series:
+            c = rng.choice([0, 100000, -370000000, 86400 * 365]) if mode == 'integers' else rng.choice([0.0, 1234.567, -9.87654321e5, 1e-3])
+            sh.append((t + c, H))
+        try:
+            ind3, off3, mp3 = call(sh)
+        except Exception as exc:  # pylint: disable=broad-except
+            rec.violation('shifted-collection-raises', {'exception': core.describe_exception(exc)}, case, 'collection')
+            return
+        ok, d = close(rel(ind3, off3), base, scale)
+        ok2, d2 = close(master(ind3, off3, mp3), mbase, scale)
+        if not (ok and ok2):
+            rec.violation('result-depends-on-a-shift-of-an-interval-axis', {'mode': mode, 'offset_difference': d, 'curve_difference': d2, 'scale': scale}, case, 'collection')
+            return
+    rec.hit('collections-compared-under-axis-shift')
+    if len(ind) >= 4:
+        if len(comps) < 2 or len(comps[0][1]) >= 2:
+            rec.mark_nontrivial(core.digest((step, [[round(float(v), 4) for v in H[:4]] for _, H in series])))
+            rec.sample({'workload': 'collection', 'step': step, 'n_series': n, 'components_levels_sizes': [(nl, len(m)) for nl, m in comps],
+                        'first_series_H': [round(float(v), 3) for v in series[0][1][:6]], 'relative_offsets': {str(k): round(v, 3) for k, v in list(base.items())[:5]}})
+
+
+def check_relabelling(ctx, rng):
+    """find_offsets: another series as the internal zero"""
+    import spowtd.fit_offsets as fo
+    from .c05 import gen_head_mapping
+
+    rec = ctx.rec
+    rec.case()
+    hm, graph, n = gen_head_mapping(rng)
+    case = {'kind': 'head_mapping', 'head_mapping': {str(k): [[s, t] for s, t in v] for k, v in hm.items()}}
+    ids = sorted({s for seq in hm.values() for s, _ in seq})
+    try:
+        i1, o1 = fo.find_offsets(copy.deepcopy(hm))
+    except Exception as exc:  # pylint: disable=broad-except
+        rec.hit('find_offsets-raised (C05 reports it)')
+        return
+    base = rel(list(i1), o1)
+    scale = max([1.0] + [abs(v) for v in base.values()] + [abs(t) for seq in hm.values() for _, t in seq])
+    for _ in range(2):
+        new = list(range(5000, 5000 + len(ids)))
+        rng.shuffle(new)
+        m = dict(zip(ids, new))
+        inv = {v: k for k, v in m.items()}
+        hm2 = {k: [(m[s], t) for s, t in seq] for k, seq in hm.items()}
+        items = list(hm2.items())
+        rng.shuffle(items)
+        try:
+            i2, o2 = fo.find_offsets(dict(items))
+        except Exception as exc:  # pylint: disable=broad-except
+            rec.violation('relabelled-head-mapping-raises', {'exception': core.describe_exception(exc)}, case, 'head_mapping')
+            return
+        r2 = rel([inv[s] for s in i2], o2)
+        # rel() is relative to the smallest id present; re-base on the same series
+        k0 = min(base)
+        r2 = {k: v - r2[k0] for k, v in r2.items()}
+        # conditioning of the problem: compare objectives as well as offsets
+        ok, d = close(r2, base, scale)
+        if not ok:
+            rows = [(s, k, t) for k, seq in hm.items() if len(seq) >= 2 for s, t in seq]
+            f1 = oracle_curves.objective(rows, dict(zip(i1, map(float, o1))))
+            f2 = oracle_curves.objective(rows, {inv[s]: float(v) for s, v in zip(i2, o2)})
+            _, _, rank = oracle_curves.lstsq_offsets(rows)
+            if rank == len(ids) - 1 and abs(f1 - f2) > 1e-9 * max(f1, f2, 1e-300):
+                rec.violation('result-depends-on-which-series-is-the-internal-zero', {'offset_difference': d, 'scale': scale, 'objectives': [f1, f2]}, case, 'head_mapping')
+                return
+            rec.hit('relabelling-differences-within-conditioning')
+    rec.hit('head-mappings-compared-under-relabelling')
+
+
+def nontrivial(kind, stats):
+    return stats.get('components', 0) >= 2 and stats.get('intervals-in-curve', 0) >= 2
 
 
 def run(ctx):
-    ctx.rec.inconclusive_because('check not built yet')
+    s = SIZES[ctx.tier]
+    rng = ctx.rng('collections')
+    for _ in range(ctx.share(s['gi'])):
+        step, series = gen_collection(rng)
+        check_collection(ctx, rng, step, series)
+    rng = ctx.rng('relabel')
+    for _ in range(ctx.share(s['hm'])):
+        check_relabelling(ctx, rng)
+    rng = ctx.rng('datasets')
+    n = ctx.share(s['ds'])
+    ncli = ctx.share(s['cli'])
+    for i in range(n):
+        if i % 3 == 2:
+            case = gen_planted.gen_noisy(rng)
+        else:
+            case = gen_planted.gen(rng, two_bands=True)
+        curves_corpus.run_dataset(ctx, PROPERTY, case, 'cli' if i < ncli else 'function', i, nontrivial=nontrivial)
 
 
 def replay(ctx, case, module=None):
-    ctx.rec.inconclusive_because('check not built yet')
+    import numpy as np
+
+    rng = core.make_rng('replay')
+    if case.get('kind') == 'collection':
+        series = [(np.array(t), np.array(H)) for t, H in case['series']]
+        check_collection(ctx, rng, case['step'], series, case)
+    elif case.get('kind') == 'head_mapping':
+        ctx.rec.inconclusive_because('relabelling cases regenerate from the seed; rerun the tier')
+    else:
+        curves_corpus.run_dataset(ctx, PROPERTY, case, 'function', 0, nontrivial=nontrivial)
